@@ -70,14 +70,26 @@ class C20(Prop):
                     ops.append("exec:0")
                 elif r < 0.85:
                     ops.append("getvar:%s" % vlib.hx(rng.choice(["v", "n", "total", "s", "x", "r", "nosuch"])))
-                elif r < 0.93:
+                elif r < 0.90:
                     ops.append("setvar:%s:%s" % (vlib.hx(rng.choice(["v", "n", "total"])), enc_value(rng.choice(VALUES))))
+                elif r < 0.96:
+                    # a host function replaced (or a built-in overridden) after the script has already run
+                    f = rng.choice(["k", "h0", "u", "len", "h3"])
+                    ops.append("addfn:%s:%s" % (vlib.hx(f), rng.choice(["arg0", "void", "c" + enc_value(rng.choice(VALUES))])))
                 else:
                     ops.append("prepare:" + rng.choice(["opt", "noopt"]))
             if rng.random() < 0.2:
                 ops.append("dump")
             objs = [gen.enc_struct(gen.rand_object(rng))]
             out.append(Case("run", {"script": vlib.hx(src), "objs": ";".join(objs), "ops": ";".join(ops)}, "api-histories", note=src))
+        # a function registered again under the same name after a run: later runs call the new one
+        for _ in range(40 if tier == "quick" else 400):
+            f = rng.choice(["k", "u", "len", "h0"])
+            src = rng.choice(["return %s(5);", "x = %s(5); return [x, x];", "t = 0; foreach i in 1..3 { t = t + %s(i); } return t;", "function g() { return %s(5); } return g();"]) % f
+            v1, v2 = rng.sample([1, 2, "a", 2.5, True], 2)
+            ops = ["addfn:%s:c%s" % (vlib.hx(f), enc_value(v1)), "prepare:" + rng.choice(["opt", "noopt"]), "exec:0",
+                   "addfn:%s:%s" % (vlib.hx(f), rng.choice(["c" + enc_value(v2), "arg0"])), rng.choice(["exec:0", "run:0"]), "exec:0"]
+            out.append(Case("run", {"script": vlib.hx(src), "objs": "N", "ops": ";".join(ops)}, "re-registration", note=src))
         # Run vs Execute on identical evaluators
         for _ in range(n // 3):
             src = gen.Gen(rng, max_depth=2).program(nstmts=rng.randint(1, 4), depth=1)
